@@ -321,6 +321,12 @@ func (p *sparser) postfix() SExpr {
 					panic("old takes one argument")
 				}
 				x = &SOld{args[0]}
+			} else if name == "prev" {
+				// prev(e): value of e at the head of the current loop iteration (loop step clauses)
+				if len(args) != 1 {
+					panic("prev takes one argument")
+				}
+				x = &SCall{"$prev", args}
 			} else {
 				x = &SCall{name, args}
 			}
